@@ -212,6 +212,7 @@ def g_index(repo):
     g.raw('prelude_idx.rs')
     eval_types(g)
     g.fn('U-idx', RULES + 'eval_context.rs', 'retrieve_index', spec='retrieve_index.spec', props=['C01', 'C08'])
+    g.fn('U-arity', RULES + 'eval_context.rs', 'get_expected_number_of_args', impl=r'impl FunctionName', spec='arity.spec', wrap_impl='impl FunctionName', props=['C08', 'C18'])
     return g
 
 
